@@ -853,7 +853,17 @@ class Fxp():
         if original_vdtype != complex and not np.issubdtype(original_vdtype, np.complexfloating):
             # val_dtype determination
             _n_word_max_ = min(_n_word_max, 64)
-            if np.max(val) >= 2**_n_word_max_ or np.min(val) < -2**_n_word_max_ or self.n_word >= _n_word_max_:
+
+            # integer inputs whose scaled magnitude does not fit a 64-bit signed integer must be
+            # handled as Python integers, otherwise they wrap before being saturated or wrapped
+            # (raw uint64 values are left alone: they can be wrapped differences of unsigned raws)
+            _scaled_out_of_int64 = False
+            if val.dtype.kind in 'iO' or (val.dtype.kind == 'u' and not raw):
+                _vmax, _vmin = np.max(val), np.min(val)
+                if isinstance(_vmax, (int, np.integer)) and isinstance(_vmin, (int, np.integer)):
+                    _scaled_out_of_int64 = max(abs(int(_vmax)), abs(int(_vmin))) * max(conv_factor, 1) >= 2**(_n_word_max_ - 1)
+
+            if _scaled_out_of_int64 or np.max(val) >= 2**_n_word_max_ or np.min(val) < -2**_n_word_max_ or self.n_word >= _n_word_max_:
                 val_dtype = object
                 val = val.astype(object)
             else:
